@@ -5,7 +5,7 @@ while compiling and passing the existing tests.
   seeded.py add <id> <worktree-of-the-subagent> <property>   copy patch.diff / demo / notes to /verif/seeded/<id>/
   seeded.py verify <id>                                       confirm in a scratch worktree: suite passes with it,
                                                               demo fails with it, demo passes without it
-  seeded.py run <id> [<property> ...]                         apply to /repo, run bin/check <property> quick, undo
+  seeded.py run <id> [<property> ...]                         run bin/check <property> quick against a scratch worktree with the change
 """
 import json, os, re, shutil, subprocess, sys, tempfile, time
 
@@ -86,32 +86,36 @@ def verify(i):
 
 
 def run(i, props):
+    """run the checks against a scratch worktree of /repo HEAD with the change applied (VERIF_REPO), evidence and
+    replays redirected to the scratch directory (VERIF_OUT): /repo and /verif/evidence are not touched"""
     mt = meta(i)
     props = props or [mt["property"]]
-    rc, o = sh("git -C /repo status --porcelain")
-    if o.strip():
-        print("refusing: /repo has uncommitted changes")
-        return 2
+    d = tempfile.mkdtemp(prefix="seedr-")
+    wt = os.path.join(d, "wt")
     out = {}
-    rc, o = sh("git -C /repo apply %s || git -C /repo apply --3way %s" % (os.path.join(sdir(i), "patch.diff"), os.path.join(sdir(i), "patch.diff")))
-    if rc:
-        print("patch does not apply:", o[-300:])
-        sh("git -C /repo checkout -- .")
-        return 2
     try:
+        rc, o = sh("git -C /repo worktree add -q --detach %s HEAD" % wt)
+        if rc:
+            print("worktree:", o[-300:])
+            return 2
+        pf = os.path.join(sdir(i), "patch.diff")
+        rc, o = sh("git apply %s || git apply --3way %s" % (pf, pf), cwd=wt)
+        if rc:
+            print("patch does not apply:", o[-300:])
+            return 2
+        env = dict(ENV, VERIF_REPO=wt, VERIF_OUT=os.path.join(d, "out"))
         for p in props:
             t0 = time.time()
-            rc, o = sh("bin/check %s quick" % p, cwd=V, timeout=3600)
+            r = subprocess.run("bin/check %s quick" % p, shell=True, cwd=V, env=env, capture_output=True, text=True, timeout=3600)
+            rc, o = r.returncode, r.stdout + r.stderr
             viol = re.findall(r"^VIOLATION property=(\S+) replay=(\S+)", o, re.M)
             out[p] = dict(exit=rc, violations=len(viol), first=(o.split("VIOLATION")[1][:300] if viol else ""), wall_s=round(time.time() - t0))
             print(i, p, "exit", rc, "violations", len(viol), (o.strip().splitlines() or [""])[-1][:200])
-            # replays written while a seeded change is applied are not kept
-            for _, path in viol:
-                if os.path.exists(path):
-                    os.remove(path)
+            if rc not in (0, 1):
+                print(o[-1500:])
     finally:
-        sh("git -C /repo checkout -- .")
-        sh("git -C /repo clean -fdq -- .")
+        sh("git -C /repo worktree remove --force %s" % wt)
+        shutil.rmtree(d, ignore_errors=True)
     mt.setdefault("runs", {}).update(out)
     save_meta(i, mt)
     return 0
